@@ -48,6 +48,7 @@ axiom("X4_dsize_pos", [nm], Imp(And(hash_available(nm), nm != z3.StringVal("shak
                                 dsize(nm) > 0), patterns=[dsize(nm)], auto=True,
       note="X4: digest_size > 0 for every available hash other than the SHAKE functions (which report 0 and are "
            "handled by the XOF branch of the wrapper)")
+axiom("X4_sha1_size", [], dsize(z3.StringVal("sha1")) == 20, auto=True, note="X4: hashlib.sha1().digest_size == 20")
 axiom("X4_xof_len", [nm, ms, n], Imp(n >= 0, Len(XOF(nm, ms, n)) == n), patterns=[XOF(nm, ms, n)], auto=True,
       note="X4: SHAKE digest(n) has n bytes")
 
